@@ -112,7 +112,7 @@ func verifDispatchSetup(kindFixed int) *verifDispatchWorld {
 	case verifKNote:
 		msg.Note = &MsgClientNote{Topic: w.topic, What: []string{"read", "recv", "kp", "junk"}[verifChoose("noteWhat", 4)], SeqId: verifNondetInt("noteSeq")}
 	}
-	nExtra := 4
+	nExtra := 6
 	if w.kind == verifKLogin {
 		nExtra = 1
 	}
@@ -126,6 +126,13 @@ func verifDispatchSetup(kindFixed int) *verifDispatchWorld {
 		msg.Extra = &MsgClientExtra{AsUser: w.extraAs, AuthLevel: "root"}
 	case 3:
 		w.extraAs = "not-a-user-id"
+		msg.Extra = &MsgClientExtra{AsUser: w.extraAs}
+	case 4:
+		// the session names its own user and asks for another level
+		w.extraAs = w.uid0.UserId()
+		msg.Extra = &MsgClientExtra{AsUser: w.extraAs, AuthLevel: "root"}
+	case 5:
+		w.extraAs = w.uid0.UserId()
 		msg.Extra = &MsgClientExtra{AsUser: w.extraAs}
 	}
 	w.msg = msg
@@ -241,7 +248,8 @@ func harnessC11Dispatch(kindFixed int) {
 			}
 			if f.Pub != nil {
 				_, forged := f.Pub.Head["sender"]
-				if !onBehalf {
+				if !onBehalf || w.extraAs == w.uid0.UserId() {
+					// (a root session naming itself acts as itself: no sender header at all)
 					verifAssert(!forged, "client-sender-header-never-survives")
 				} else {
 					verifAssert(f.Pub.Head["sender"] == w.uid0.UserId(), "sender-header-is-the-servers-own")
